@@ -35,7 +35,7 @@ BOUNDS = (
     "and sticky_default_ttl: presence in all 16x2 combinations with fixed values, and one value at a time = any int "
     "0..%d; flags storage, upload provider, compression on/off, sticky, echo headers, proof-required, "
     "introspection: all 256 combinations; request method: any of 6 x success flag on two configurations; thorough "
-    "tier: the full 2048-configuration product with fixed values" % pick(10**6, 10**8)
+    "tier: the full 2048-configuration product with fixed values" % pick(10**6, 10**7)
 )
 OUTSIDE = (
     "interaction between the groups above in the quick tier (limits x features x method are decided group by group, "
@@ -395,7 +395,7 @@ def limit_headers_present_iff_configured(has_req: bool, has_resp: bool, has_ext:
                   300, False, provider, True, False, False, False, False, 0, True)  # fmt: skip
 
 
-_NMAX = pick(10**6, 10**8)
+_NMAX = pick(10**6, 10**7)
 
 
 def _args_one_value(which: int, n: int) -> dict:
@@ -403,7 +403,7 @@ def _args_one_value(which: int, n: int) -> dict:
             "mup": n if which == 3 else None, "ttl": n if which == 4 else 300, "provider": which == 3, "sticky": which == 4, "compression": True}  # fmt: skip
 
 
-@cond(q=60, t=600, stubs=_STUBS, encoded=ENCODED, replay=lambda args: _replay_real_app(_args_one_value(args["which"], args["n"])), signature=_SIG,
+@cond(q=60, t=900, stubs=_STUBS, encoded=ENCODED, replay=lambda args: _replay_real_app(_args_one_value(args["which"], args["n"])), signature=_SIG,
       bound="one numeric setting at a time (4 byte limits, sticky ttl) = any int 0..%d, rendered by the factory and parsed back by the probe" % _NMAX)
 def each_numeric_value_rendered_and_read_back(which: int, n: int) -> bool:
     """
